@@ -467,6 +467,7 @@ class C23(Check):
         res = ShardResult()
         if not jitlab.shard_enabled(shard):
             res.dropped["shard-not-selected(VERIF_ONLY_SHARDS)"] += 1
+            res.exhaustive["all-shards-run"] = False
             return res
         nrand = 12 if tier == "thorough" else 3
         rng = random.Random(seed ^ 0x5bd1e995)
